@@ -35,6 +35,9 @@ def run(ctx):
         "(([a-zA-Z0-9_-]+ ?)*, ([a-z]+)*, (a|aa)+, (x+x+)+y, (\\w+\\d*)+, scheme (h+)+ttps?) with values of 48 / 200 / 2000 allowed characters plus one "
         "forbidden character, and expressions compiled with regex::utf8 with values carrying invalid UTF-8, under encodings none / UTF-8 / "
         "ISO-8859-1 / windows-1252; TLC evaluates the declared character set / alternatives / scheme list (a superset of each language)",
+        "UTF-8 rule sets are driven with an ill-formed family (overlong forms at their boundaries, surrogates, > U+10FFFF, truncated "
+        "sequences, lone continuations, every second byte after E0 / ED / F0 / F4) and the well-formed neighbours, judged by the RFC 3629 "
+        "predicate Utf8From of XssTok.tla",
         "entity sweep: every '&' w ';' with w = '#' v, |v| <= 4 (quick) / 5 (thorough), and w without '#', over & # x X 0 1 9 a f A F g ; + - "
         "SP TAB . _ and 0xE9, in text position and inside an attribute value, numeric entities on / off, XHTML / HTML; the entity grammar "
         "is EntityEnd / NumericRefOK of XssTok.tla (white-listed name | '&#' DIGIT+ ';' | '&#x' HEXDIGIT+ ';', code point not a control)",
@@ -96,6 +99,8 @@ def run(ctx):
         job("enta", ["ent", 3, 1, 0, 1, erid(3, 3, 1), erid(3, 3, 0)], 1)
         # expression engine error outcomes (match limit / bad UTF-8): values one forbidden character away from the language
         job("eng", ["eng", 0, 0, 0, 1, 2000, 2003, 2005, 2006], 2)
+        # ill-formed UTF-8 family under UTF-8 rule sets (and one rule set without encoding as control)
+        job("u8", ["u8", 0, 0, 0, 1, erid(3, 3, 1, enc=1), erid(3, 3, 0, enc=1, js=1), erid(3, 3, 1)], 1)
         job("enc", ["enc", 13, 0, 0, 1], 2)
         job("rnd", ["rnd", 900, 200, 0, 1] + fam, 3)
     else:
@@ -114,6 +119,7 @@ def run(ctx):
         job("ento", ["ent", 4, 0, 0, 1, erid(3, 3, 1, nu=0), erid(3, 3, 0, nu=0)], 2)
         job("enta", ["ent", 4, 1, 0, 1, erid(3, 3, 1), erid(3, 3, 0)], 2)
         job("eng", ["eng", 1, 0, 0, 1, 2000, 2001, 2002, 2003, 2004, 2005, 2006, 2007], 4)
+        job("u8", ["u8", 0, 0, 0, 1, erid(3, 3, 1, enc=1), erid(3, 3, 0, enc=1, js=1), erid(3, 3, 1), erid(1, 1, 0, enc=1)], 1)
         job("enc", ["enc", 1, 1, 0, 1], 6)
         job("rnd", ["rnd", 3000, 400, 0, 1] + fam, 12)
         job("rndL", ["rnd", 60, 1500, 0, 1] + fam[:12], 2)
@@ -134,7 +140,7 @@ def run(ctx):
         for x in rej:
             report(ctx, shard, x)
     # drift: the mechanism model's own prediction (never a violation)
-    dtr = [t for t in traces if any(k in os.path.basename(t) for k in (("tok", "rnd", "lf", "ctl", "enc", "ento", "enta", "entx-0", "eng") if q else ("tok", "rnd", "attr", "lf", "ctl", "enc", "enth", "ento", "enta", "eng")))]
+    dtr = [t for t in traces if any(k in os.path.basename(t) for k in (("tok", "rnd", "lf", "ctl", "enc", "ento", "enta", "entx-0", "eng", "u8") if q else ("tok", "rnd", "attr", "lf", "ctl", "enc", "enth", "ento", "enta", "eng", "u8")))]
     dres = shard.parallel_print_pass(ctx, "Xss/XssTokTrace.tla", "XssTokDrift.cfg", dtr, "DRIFT", threads=NT)
     nd = 0
     for t, rows in dres.items():
